@@ -13,6 +13,7 @@ import (
 type GateFS struct {
 	Filter func(c *vos.Call) bool
 	OnCall func(c *vos.Call)
+	OnDone func(c *vos.Call, err error)
 }
 
 func (g *GateFS) Before(c *vos.Call) {
@@ -29,4 +30,8 @@ func (g *GateFS) Before(c *vos.Call) {
 	}
 }
 
-func (g *GateFS) After(c *vos.Call, err error) {}
+func (g *GateFS) After(c *vos.Call, err error) {
+	if g.OnDone != nil && (g.Filter == nil || g.Filter(c)) {
+		g.OnDone(c, err)
+	}
+}
